@@ -40,7 +40,7 @@ def _race_reports(tmp, label):
 
 def _race_key(block):
     # outermost library frames of the two conflicting accesses, line numbers stripped
-    frames = re.findall(r"^\s+(gitlab\.com/yawning/secp256k1-voi[^\s(]*)\(", block, re.M)
+    frames = re.findall(r"^\s+(gitlab\.com/yawning/secp256k1-voi\S*?)\(\)\s*$", block, re.M)
     frames = [re.sub(r"\.func\d+(\.\d+)*$", "", f) for f in frames]
     uniq = []
     for f in frames:
